@@ -295,22 +295,22 @@ def check_to_dag(p, idx, drv, ctx, truth=None):
     gd = aset((idx[a], idx[b]) for a, b in d.edges())
     md, fb = drv.call("c12_todag", [True, ns, [list(e) for e in arcs]])
     ctx = dict(ctx, pdag_nodes=ns, pdag_arcs=arcs)
-    if gd != aset(md):
-        return bad("impl!=model:to_dag", dict(ctx, impl=gd, model=aset(md), fallback=fb))
     if sorted(idx[a] for a in d.nodes()) != sorted(idx[a] for a in p.nodes()):
         return bad("impl!=spec:to_dag-nodes", dict(ctx, impl=sorted(idx[a] for a in d.nodes())))
     ext = True if truth is not None else extendable(sorted(ns), arcs)
     if ext:
-        if fb:
-            return bad("impl!=spec:to_dag-fallback-on-extendable", dict(ctx, dag=gd))
         okc = drv.call("c12_cext", [sorted(ns), [list(e) for e in arcs], [list(e) for e in gd]])
         if okc and truth is not None:
             okc = drv.call("c12_member", [list(range(truth[0])), [list(e) for e in truth[1]], [list(e) for e in gd]])
         if not okc:
             return bad("impl!=spec:to_dag-not-consistent-extension", dict(ctx, dag=gd, fallback=fb))
+        if fb and gd == aset(md):
+            return bad("impl!=spec:to_dag-fallback-on-extendable", dict(ctx, dag=gd))
     elif ext is False and not fb:
         # the proved invariant (C12_to_dag_invariants): no fallback => consistent extension => extendable
         return bad("model!=spec:no-fallback-on-non-extendable", dict(ctx, dag=gd))
+    if gd != aset(md):
+        return bad("impl!=model:to_dag", dict(ctx, impl=gd, model=aset(md), fallback=fb))
     return None
 
 
@@ -508,7 +508,7 @@ def run_todag(case, drv):
         _, edges = common.rand_dag(rng, n)
         arcs = aset(drv.call("c12_spec", [list(range(n)), [list(e) for e in edges]])[0])
     elif src == "shielded":
-        # common directed parents over an undirected chain component: the class of inputs behind the known finding
+        # common directed parents over an undirected chain component: the class of inputs behind the repaired defect 6ec15dd
         k = rng.randint(1, 2)
         m = max(2, n - k)
         par = list(range(k))
